@@ -1,0 +1,20 @@
+//go:build verif
+
+package tan
+
+// Verification hook (build tag verif only): lets a test harness lower the log file and
+// MANIFEST size limits so that file rotation happens after a few saves. Zero keeps the
+// production defaults.
+var (
+	VerifMaxLogFileSize      int64
+	VerifMaxManifestFileSize int64
+)
+
+func verifDefaults(o *Options) {
+	if o.MaxLogFileSize == 0 && VerifMaxLogFileSize > 0 {
+		o.MaxLogFileSize = VerifMaxLogFileSize
+	}
+	if o.MaxManifestFileSize == 0 && VerifMaxManifestFileSize > 0 {
+		o.MaxManifestFileSize = VerifMaxManifestFileSize
+	}
+}
